@@ -5,7 +5,8 @@
    window goroutine yields this sequence; the quantification over interleavings is the
    quantification over h (all interleavings of the keys' rows). No reap step (STATETTL). *)
 From Coq Require Import Permutation.
-From SV Require Import Model.GroupKey Model.Counting Spec.GroupSpec Proofs.GroupKeyProofs Proofs.CountingProofs.
+From SV Require Import Model.GroupKey Model.Counting Model.NumCarrier Spec.GroupSpec Proofs.GroupKeyProofs Proofs.CountingProofs
+  Proofs.NumCarrierProofs.
 
 (* the i-th batch (i = 0, 1, ..) delivered for the key tuple t is exactly rows i*N+1 .. (i+1)*N of
    t's subsequence, in order, and there is an i-th batch only if t has (i+1)*N rows *)
@@ -72,6 +73,73 @@ Theorem C09_model_meets_checker_blocks : forall n sch h t, 1 <= n ->
   = let ids := map krid (krows_of t h) in chunks (length ids) n ids.
 Proof. exact counting_matches_spec_blocks. Qed.
 Print Assumptions C09_model_meets_checker_blocks.
+
+(* ---- the Go carrier of a numeric key value (Model/NumCarrier.v: cast.ToString and groupTypeKey, type
+   switch by type switch). [carries ty v]: the Go type holds exactly the number; [prints_alike]: not one of
+   the two carriers refuted below. ---------------------------------------------------------------- *)
+
+(* the aggregator's segment of a number does not depend on the Go type that carries it
+   (int(7), uint8(7), float32(7), float64(7): all "int|7") *)
+Theorem C09_carrier_agg_key : forall ty v, carries ty v = true -> go_key_part ty v = k_key_part (num_value v).
+Proof. exact key_part_carrier. Qed.
+Print Assumptions C09_carrier_agg_key.
+
+(* nor does the text the counting window keys its buffers by *)
+Theorem C09_carrier_window_text : forall ty v, carries ty v = true -> prints_alike ty v = true ->
+  k_esc (go_to_string ty v) = k_col_text (num_value v).
+Proof. exact to_string_carrier. Qed.
+Print Assumptions C09_carrier_window_text.
+
+(* so for rows of one schema the window-side key and the aggregator-side key agree: same buffer iff same
+   group iff same tuple of VALUES -- a batch of N rows of one buffer is one group of N rows *)
+Theorem C09_carrier_sites_agree : forall sch r1 r2,
+  crow_carried r1 = true -> crow_alike r1 = true -> crow_carried r2 = true -> crow_alike r2 = true ->
+  conforms sch (ktuple_of (erase_row r1)) -> conforms sch (ktuple_of (erase_row r2)) ->
+  (c_cnt_key r1 = c_cnt_key r2 <-> ktuple_of (erase_row r1) = ktuple_of (erase_row r2))
+  /\ (c_agg_key r1 = c_agg_key r2 <-> ktuple_of (erase_row r1) = ktuple_of (erase_row r2)).
+Proof. exact carrier_sites_agree. Qed.
+Print Assumptions C09_carrier_sites_agree.
+
+(* and the keys of a whole Add sequence of carried rows are the keys [cw_run] computes on the numbers:
+   the theorems above speak about the carried rows *)
+Theorem C09_carrier_keys_of_history : forall h,
+  Forall (fun r => crow_carried r = true /\ crow_alike r = true) h ->
+  map c_cnt_key h = map cnt_key (map erase_row h).
+Proof. exact cnt_keys_carrier. Qed.
+Print Assumptions C09_carrier_keys_of_history.
+
+(* the code as it is: the SAME number as float32 and as float64 is counted in two buffers when its float32
+   text is shorter (float32(1.1) widened: "1.1" / "1.100000023841858") although the aggregator gives both
+   one group -- the per-key N-blocks are then cut per carrier (known finding FC09a) *)
+Theorem C09_carrier_float32_text_refuted :
+  carries GFloat32 w11 = true /\ carries GFloat64 w11 = true
+  /\ go_to_string GFloat32 w11 <> go_to_string GFloat64 w11
+  /\ go_key_part GFloat32 w11 = go_key_part GFloat64 w11.
+Proof. exact float32_text_splits_one_number. Qed.
+Print Assumptions C09_carrier_float32_text_refuted.
+
+(* ... and two different numbers (that float32, the float64 1.1) share one buffer *)
+Theorem C09_carrier_float32_merge_refuted :
+  num_value w11 <> num_value d11
+  /\ go_to_string GFloat32 w11 = go_to_string GFloat64 d11
+  /\ go_key_part GFloat32 w11 <> go_key_part GFloat64 d11.
+Proof. exact float32_text_merges_two_numbers. Qed.
+Print Assumptions C09_carrier_float32_merge_refuted.
+
+(* a uint at or above 2^63 is counted under the text of the negative int it wraps to *)
+Theorem C09_carrier_uint_wrap_refuted :
+  carries GUint (NumInt 18446744073709551611) = true /\ carries GInt64 (NumInt (-5)) = true
+  /\ go_to_string GUint (NumInt 18446744073709551611) = go_to_string GInt64 (NumInt (-5))
+  /\ go_key_part GUint (NumInt 18446744073709551611) <> go_key_part GInt64 (NumInt (-5)).
+Proof. exact uint_text_wraps. Qed.
+Print Assumptions C09_carrier_uint_wrap_refuted.
+
+(* non-vacuity: uint8(7), float32(7), float64(7) in one column, next to a string column *)
+Example C09_carrier_example :
+  let row ty := mkCRow 1 [CNum ty (NumInt 7); CPlain (Some (KStr [97%N]))] in
+  c_cnt_key (row GUint8) = c_cnt_key (row GFloat32) /\ c_agg_key (row GFloat32) = c_agg_key (row GFloat64)
+  /\ crow_carried (row GFloat32) = true /\ crow_alike (row GFloat32) = true.
+Proof. repeat split; reflexivity. Qed.
 
 (* non-vacuity: N = 2, keys a b a a b interleaved: a -> [1;3], b -> [2;5]; row 4 stays buffered *)
 Example C09_example :
